@@ -16,6 +16,19 @@ def bound_ok(t):
 def gen_round(run, exe, acc, rnd, rno, nprobes):
     bounds, probes = {}, {}
     ZEROS = vlib.accept_filter(run, exe, {e: ["0.0.0", "0.0", "0", "v0.0.0", "0.0.0.0"] for e in ECOS}, name="zeros%d" % rno) if nprobes else {}
+    LONGB = {}
+    if nprobes:
+        import re
+        longc = {}
+        for e in ECOS:
+            c = []
+            for t in rnd.sample([t for t in acc[e] if bound_ok(t)], 6):
+                runs = list(re.finditer(r"[A-Za-z]+", t))
+                if runs and len(t) < 250:
+                    m = runs[-1]
+                    c.append(t[:m.end()] + t[m.end() - 1] * (250 - len(t)) + t[m.end():])
+            longc[e] = c
+        LONGB = vlib.accept_filter(run, exe, longc, name="longb%d" % rno)
     for e in ECOS:
         cand = [t for t in acc[e] if bound_ok(t)]
         if len(cand) < NB:
@@ -26,6 +39,14 @@ def gen_round(run, exe, acc, rnd, rno, nprobes):
         zeros = [z for z in ZEROS.get(e, []) if z not in bounds[e]]
         if zeros and nprobes:
             bounds[e][0] = zeros[rno % len(zeros)]
+        if nprobes:
+            # one bound spelled with a letter prefix the version parser accepts (v1.2.3, release-1.0), and one long bound
+            # (about 250 bytes: a range text built from it passes 256 bytes)
+            pre = [t for t in cand if t[0].isalpha() and any(c.isdigit() for c in t) and t not in bounds[e]]
+            if pre:
+                bounds[e][1] = rnd.choice(pre)
+            if LONGB.get(e):
+                bounds[e][2] = LONGB[e][rno % len(LONGB[e])]
         probes[e] = list(dict.fromkeys(bounds[e] + rnd.sample(acc[e], min(len(acc[e]), nprobes))))
     # neighbours of the bounds at type-width boundaries (65536, 2^31, 2^63, ...): the oracle is still the real Compare
     if nprobes:
